@@ -102,6 +102,7 @@ fn child_recover(args: &[String]) -> i32 {
     let dir = arg_val(args, "--dir").expect("--dir");
     let out = arg_val(args, "--out").expect("--out");
     let inflight: Value = serde_json::from_str(&arg_val(args, "--inflight").unwrap_or("[]".into())).unwrap_or(json!([]));
+    let dmg = args.iter().any(|a| a == "--dmg");
     let beh: Behaviour = serde_json::from_slice(&std::fs::read(&spec).expect("read beh")).expect("beh json");
     exec::set_backend(&beh.cfg);
     exec::start_watchdog(30, out.clone());
@@ -115,7 +116,12 @@ fn child_recover(args: &[String]) -> i32 {
             break;
         }
     }
-    run.emit(json!({"ev":"crash","i":0,"inflight":inflight,"res":res}));
+    if dmg {
+        run.emit(json!({"ev":"note","what":"damaged_open","res":res}));
+        run.dmg = true;
+    } else {
+        run.emit(json!({"ev":"crash","i":0,"inflight":inflight,"res":res}));
+    }
     if res == "ok" {
         let topics = run.cfg.topics.clone();
         for i in 0..run.insts.len() {
